@@ -625,10 +625,8 @@ func genAgeCase(r *vkit.Run, c cfg, i int) *ageCase {
 	// lifetime = smallest TTL in the upstream's answer (override: at least MinTTL)
 	up, _, _, _ := answer(q.msg(1))
 	_, lowest := origTTLs(up)
-	ac.Life = lowest
-	if c.Override {
-		ac.Life = max(ac.Life, float64(c.MinTTL))
-	}
+	_ = lowest
+	ac.Life = propLifetime(up, c)
 	one := func() float64 {
 		L := ac.Life
 		switch u := rng.Float64(); {
@@ -656,6 +654,7 @@ func genAgeCase(r *vkit.Run, c cfg, i int) *ageCase {
 func (m *monitor) phaseAges() {
 	r := m.r
 	perCfg := r.N(120, 700)
+	perSF := r.N(40, 150)
 	waves := r.N(1, 6)
 	for wave := 0; wave < waves; wave++ {
 		var cases []*ageCase
@@ -665,29 +664,16 @@ func (m *monitor) phaseAges() {
 			for i := 0; i < perCfg; i++ {
 				cases = append(cases, genAgeCase(r, c, wave*perCfg+i))
 			}
+			for i := 0; i < perSF; i++ {
+				cases = append(cases, genServfailAgeCase(r, c, wave*perSF+i))
+			}
 		}
-		for _, ac := range cases {
-			ac.twin = newInstance(ac.Cfg, 8).do(ac.Q, 4242)
-		}
-		var wg sync.WaitGroup
-		for _, ac := range cases {
-			wg.Add(1)
-			go func(ac *ageCase) {
-				defer wg.Done()
-				in := shared[ac.Cfg]
-				ac.fill = in.do(ac.Q, nextID())
-				for _, a := range ac.Ages {
-					target := ac.fill.Ret + time.Duration(a*float64(time.Second))
-					if d := target - now(); d > 0 {
-						time.Sleep(d)
-					}
-					ac.probes = append(ac.probes, in.do(ac.Q, nextID()))
-				}
-			}(ac)
-		}
-		wg.Wait()
+		runAgeCases(cases, shared)
 		for _, ac := range cases {
 			m.judgeAgeCase(ac, shared[ac.Cfg])
+			if ac.Idx >= 100000 {
+				m.countServfailCoverage(ac, false)
+			}
 		}
 	}
 }
@@ -916,14 +902,17 @@ func TestCheck(t *testing.T) {
 		"(sibling-subnets) ECS cache, subnet-dependent answers (scope = source length): two client locations whose GeoIP subnets are siblings under one prefix length (IPv4 /12 /19 /20 /21 /23, IPv6 /44 /52 /57 /61; controls /8 /16 /24, /48 /56 /64), location from the client address or from its ECS option, history [A, B, A, B]; " +
 		"(wired) histories of 10-17 names asked three times on an instance whose dnsmsg.Cloner is shared with message constructors that build blocked / rewritten answers between the cache accesses and into which every written response is disposed (production wiring); " +
 		"(frontend) the middleware behind the real plain-DNS server with the cloner as Disposer: a UDP query whose answer the server truncates, then the same question over TCP / with a large EDNS size (and TCP, truncated UDP, TCP), compared with a cold server's answer; " +
+		"(servfail ages) SERVFAIL with SOA / answer / EDE and record TTL 1-3 s inside the age sweep of all four configs (override minimum 2 s), probed before the lifetime, between lifetime and minimum, and past both; SERVFAIL without records and with record TTL 20/45/90/3600 s (override minimum 60 s and no override) probed around min(record TTL, 30 s) and past 30 s, sleeping in the background of the other phases; " +
 		"(concurrent) 16-48 goroutines over a ~100-request alphabet of 1-2 s TTL names on one shared instance per config under the race detector. " +
 		"distinct = (phase, config, response kind, dimension/order | class/qtype | lifetime and 100 ms age bucket | alphabet element); " +
 		"non-trivial = at least one response of the case was served from cache (upstream not called) or a required cache miss between different keys was observed.")
 	r.Assume("the upstream's answer depends only on (case-folded question, forwarded subnet when it declares a non-zero scope); the DO bit only adds DNSSEC records; it never sets AA")
 	r.Assume("the OPT pseudo-record's header is hop-to-hop (the server rewrites it) and is not compared; the simple cache's OPT is not compared at all, the ECS cache's OPT options (ECS echo, EDE) are")
 	r.Assume("owner names are compared case-insensitively, the question section exactly; clients without a known location are not mixed with located clients on subnet-dependent names (that is C05's subject)")
+	r.Assume("a SERVFAIL may be served from cache for at most min(smallest record TTL, 30 s) (documented ServFailMaxCacheTTL); the minimum-TTL override neither extends that nor raises its TTLs (both middlewares exempt SERVFAIL)")
 	r.Assume("timestamps: age_min = t(hit sent) - t(fill returned), age_max = t(hit returned) - t(upstream answered the fill), same monotonic clock as the code under test; a TTL is a violation only if it exceeds floor(orig - age_min + 0.5); min-TTL override: orig := max(orig, min TTL)")
 
+	finishServfailLong := m.startServfailLong()
 	phaseWall := map[string]float64{}
 	for _, ph := range []struct {
 		name string
@@ -934,6 +923,7 @@ func TestCheck(t *testing.T) {
 		ph.f()
 		phaseWall[ph.name] = (now() - st).Seconds()
 	}
+	finishServfailLong()
 	r.Extra("phase_wall_s", phaseWall)
 
 	ageMu.Lock()
@@ -960,6 +950,12 @@ func TestCheck(t *testing.T) {
 		r.Require("wired_hits_"+cn, 150)
 		r.Require("frontend_truncated_then_hit_"+cn, 10)
 		r.Require("frontend_final_step_from_cache_"+cn, 20)
+	}
+	for _, cn := range []string{"simple-cache", "ecs-cache"} {
+		r.Require("servfail_hits_within_lifetime_"+cn, 30)
+		r.Require("servfail_probes_past_lifetime_"+cn, 60)
+		r.Require("servfail_override_probes_between_lifetime_and_min_"+cn, 20)
+		r.Require("servfail_probes_past_30s_"+cn, 12)
 	}
 	r.Require("sibling_separation_observed:unaligned", 30)
 	r.Require("sibling_separation_observed:octet-aligned", 20)
